@@ -174,6 +174,9 @@ def histStep (st : Arr XR) (op : String) (tok : String) : Option (Arr XR × Bool
     pure (⟨st.data.set i (f64OfBits v), st.shape⟩, tok == "-")
   | ["norm"] => some (⟨normalize st.data, st.shape⟩, tok == "-")
   | ["clone"] => some (st, tok == "-")
+  | ["clonefrom", sh, k] => do
+    let shape ← parseNats sh; let k ← k.toNat?
+    pure (⟨(List.range (size shape)).map (fun i => XR.fin (((1 + (i * k) % 17 : Nat) : Int) : Rat)), shape⟩, tok == "-")
   | ["fold", fb] => do
     let v ← parseHexNat fb
     pure (st, cmpArrTok tok ⟨foldSpectrum xrHalf (f64OfBits v) st.shape st.data, st.shape⟩ (sumAbs st.data))
